@@ -8,19 +8,19 @@ WT=$(mktemp -d /var/tmp/seedfin.XXXXXX); rm -rf "$WT"; mkdir -p "$OUT"
 git -C /repo worktree add --detach "$WT" HEAD >/dev/null 2>&1 || { echo "worktree failed"; exit 2; }
 cp /repo/src/pygaps/_version.py "$WT/src/pygaps/_version.py"
 cd "$WT"; export PYTHONPATH="$WT/src"
-sed "s#/tmp/seed/C[0-9][0-9]#$WT#g" "$DEMO" > "$WT/demo.py"
-timeout 900 /venv/bin/python demo.py > "$OUT/demo_clean.out" 2>&1; CLEAN=$?
+mkdir -p "$WT/_seed"; sed "s#/tmp/seed/C[0-9][0-9]#$WT#g" "$DEMO" > "$WT/_seed/demo.py"
+timeout 900 /venv/bin/python _seed/demo.py > "$OUT/demo_clean.out" 2>&1; CLEAN=$?
 AP=0
 if ! git apply "$PATCH" 2> "$OUT/apply.err"; then
   if ! patch -p1 --fuzz=3 -s < "$PATCH" >> "$OUT/apply.err" 2>&1; then AP=1; fi
   find . -name '*.orig' -o -name '*.rej' | xargs rm -f 2>/dev/null
 fi
 git diff -- src > "$OUT/patch.diff"
-timeout 900 /venv/bin/python demo.py > "$OUT/demo_patched.out" 2>&1; PATCHED=$?
+timeout 900 /venv/bin/python _seed/demo.py > "$OUT/demo_patched.out" 2>&1; PATCHED=$?
 /usr/bin/python3 /verif/tools/suite_check.py "$WT" > "$OUT/suite.out" 2>&1; SUITE=$?
 : > "$OUT/checks.txt"
 for c in C01 C02 C03 C04 C05 C06 C07 C08 C09 C10 C11 C12 C13 C14 C15 C16 C17 C18 C19 C20; do
-  out=$(cd /verif && PGVERIF_EVIDENCE_DIR="$OUT/ev" ./check $c --tier quick --no-selftest --root "$WT" 2>&1); rc=$?
+  out=$(cd ${VERIF_SNAPSHOT:-/verif} && PGVERIF_EVIDENCE_DIR="$OUT/ev" ./check $c --tier quick --no-selftest --root "$WT" 2>&1); rc=$?
   rules=$(echo "$out" | grep -E '^  src' | sed -E 's/.* -- (C[0-9]+\.[A-Za-z0-9-]+) -- (.*)/\1|\2/' | sort -u | head -4 | tr '\n' ';')
   [ $rc -eq 2 ] && rules=$(echo "$out" | grep -m1 ANALYSIS-ERROR | cut -c1-200)
   echo "$c rc=$rc $rules" >> "$OUT/checks.txt"
